@@ -108,3 +108,26 @@ package eval
 //@   ensures [kingAtt]  all(c, 0, 1, pw2.attacks[c][5] == mirrorBB(pw1.attacks[c^1][5]))
 //@   ensures [kingRays] all(c, 0, 1, all(k, 0, 1, pw2.kingRays[c][k] == mirrorBB(pw1.kingRays[c^1][k])))
 //@
+//@ # ---- C17 (colour symmetry), per-piece attack stage: one call of each calc*Attacks helper for a piece
+//@ # ---- of colour c on sq, and for the mirror image's piece of colour c^1 on sq^56, returns mirrored
+//@ # ---- attack sets and keeps the accumulated per-piece attack tables mirrored (real bodies, C12 callees)
+//@ scenario pieceAttacksMirror(pw1 *pieceWise, pw2 *pieceWise, c Color, sq Square)
+//@   props C17
+//@   requires c <= 1 && 0 <= sq && sq < 64
+//@   requires pw2.occ == mirrorBB(pw1.occ)
+//@   requires all(d, 0, 1, all(k, 0, 5, pw2.attacks[d][k] == mirrorBB(pw1.attacks[d^1][k])))
+//@   use slidersSymmetric(sq, pw1.occ)
+//@   do q1 := inline pw1.calcQueenAttacks(c, sq)
+//@   do q2 := inline pw2.calcQueenAttacks(c ^ 1, sq ^ 56)
+//@   do r1 := inline pw1.calcRookAttacks(c, sq)
+//@   do r2 := inline pw2.calcRookAttacks(c ^ 1, sq ^ 56)
+//@   do b1 := inline pw1.calcBishopAttacks(c, sq)
+//@   do b2 := inline pw2.calcBishopAttacks(c ^ 1, sq ^ 56)
+//@   do n1 := inline pw1.calcKnightAttacks(c, sq)
+//@   do n2 := inline pw2.calcKnightAttacks(c ^ 1, sq ^ 56)
+//@   ensures [queen]  q2 == mirrorBB(q1)
+//@   ensures [rook]   r2 == mirrorBB(r1)
+//@   ensures [bishop] b2 == mirrorBB(b1)
+//@   ensures [knight] n2 == mirrorBB(n1)
+//@   ensures [tables] all(d, 0, 1, all(k, 0, 5, pw2.attacks[d][k] == mirrorBB(pw1.attacks[d^1][k])))
+//@
